@@ -340,16 +340,19 @@ I3(t) == t.items = NumFull(t)
 I4(t) == NumEmpty(t) >= 1
 I5(t, strict) == IF strict THEN t.gl = Cap(t.mask) - t.items - NumDel(t)
                  ELSE t.gl >= 0 /\ t.gl <= Cap(t.mask) - t.items - NumDel(t)
-I6(t) == \A i \in FullIdx(t) : t.ctrl[i] = t.data[i][6]
+I6F(t, F) == \A i \in F : t.ctrl[i] = t.data[i][6]
+I6(t) == I6F(t, FullIdx(t))
 \* reachability: probing for the occupant's hash reaches its bucket before a group with an EMPTY byte
 RECURSIVE ReachRec(_, _, _, _, _)
 ReachRec(c, m, target, p, stride) ==
-  IF \E i \in 0..(W-1) : (p + i) % (m + 1) = target THEN TRUE
+  IF (target - p) % (m + 1) < W THEN TRUE          \* the group loaded at p covers the target bucket
   ELSE IF HasEmpty(c, p) THEN FALSE
   ELSE IF stride > m THEN FALSE
   ELSE ReachRec(c, m, target, NextPos(p, stride + W, m), stride + W)
-I7(t) == \A i \in FullIdx(t) : ReachRec(t.ctrl, t.mask, i, Pos0(EH(t.data[i]), t.mask), 0)
-I8(t) == \A i, j \in FullIdx(t) : i # j => EK(t.data[i]) # EK(t.data[j])
+I7F(t, F) == \A i \in F : ReachRec(t.ctrl, t.mask, i, Pos0(EH(t.data[i]), t.mask), 0)
+I7(t) == I7F(t, FullIdx(t))
+I8F(t, F) == Cardinality({EK(t.data[i]) : i \in F}) = Cardinality(F)
+I8(t) == I8F(t, FullIdx(t))
 I9(t) == /\ \A i \in 0..t.mask : IsFull(t.ctrl[i]) <=> (t.data[i] # NoElem)
 \* safety subset (holds even under unlawful Hash/Eq)
 InvSafe(t) == I1(t) /\ I2(t) /\ I3(t) /\ I4(t) /\ I5(t, FALSE) /\ I9(t)
@@ -359,11 +362,18 @@ InvMap(t, strict) == InvTable(t, strict) /\ I8(t)
 \* names of the violated clauses (diagnostics)
 InvDiag(t, strict, map) ==
   IF ~I1(t) THEN {"I1 shape"} ELSE
-  (IF I2(t) THEN {} ELSE {"I2 mirror bytes"}) \cup (IF I3(t) THEN {} ELSE {"I3 items = number of FULL bytes"})
-  \cup (IF I4(t) THEN {} ELSE {"I4 an EMPTY bucket exists"}) \cup (IF I5(t, strict) THEN {} ELSE {"I5 growth_left accounting"})
-  \cup (IF I9(t) THEN {} ELSE {"I9 FULL <=> slot holds an element"})
-  \cup (IF I3(t) /\ I4(t) /\ I9(t) THEN
-          (IF I6(t) THEN {} ELSE {"I6 control byte = tag of occupant"}) \cup (IF I7(t) THEN {} ELSE {"I7 occupant reachable by probing"})
-          \cup (IF map /\ ~I8(t) THEN {"I8 duplicate key"} ELSE {})
+  LET F == FullIdx(t)
+      nd == NumDel(t)
+      i3 == t.items = Cardinality(F)
+      i4 == NumEmpty(t) >= 1
+      i5 == IF strict THEN t.gl = Cap(t.mask) - t.items - nd ELSE t.gl >= 0 /\ t.gl <= Cap(t.mask) - t.items - nd
+      i9 == I9(t)
+  IN
+  (IF I2(t) THEN {} ELSE {"I2 mirror bytes"}) \cup (IF i3 THEN {} ELSE {"I3 items = number of FULL bytes"})
+  \cup (IF i4 THEN {} ELSE {"I4 an EMPTY bucket exists"}) \cup (IF i5 THEN {} ELSE {"I5 growth_left accounting"})
+  \cup (IF i9 THEN {} ELSE {"I9 FULL <=> slot holds an element"})
+  \cup (IF i3 /\ i4 /\ i9 THEN
+          (IF I6F(t, F) THEN {} ELSE {"I6 control byte = tag of occupant"}) \cup (IF I7F(t, F) THEN {} ELSE {"I7 occupant reachable by probing"})
+          \cup (IF map /\ ~I8F(t, F) THEN {"I8 duplicate key"} ELSE {})
         ELSE {})
 =============================================================================
